@@ -328,6 +328,9 @@ class NormalizeAtCallSite(Contract):
 
     def result(self, ex, args):
         from pyvc.theories import spec as T
+        # None ("the literal cannot be read as a bound on python_full_version": obligation C11.normalize.none-leaves-the-atoms-unmerged) is followed too
+        if ex.branch(z3.Bool(fresh_name("normalize_gives_none"))):
+            return None
         key = id(args[0])
         if key not in self.of:
             self.of[key] = (self.th.sshape.fresh("normalized"), args[0])
@@ -335,6 +338,8 @@ class NormalizeAtCallSite(Contract):
 
     def ensures(self, ex, args, result):
         from pyvc.theories import spec as T
+        if result is None:
+            return []
         return [("normalized.canonical", T.wf(result))]
 
     def allowed_raise(self, ex, args, exc):
